@@ -42,7 +42,7 @@
    handles in the CONCURRENT machine (compared with the value-semantics Spec on every case). *)
 From Coq Require Import ZArith List Bool Arith.
 From Common Require Import ListAux.
-From Rc Require Import RcModel RcSpec RcProofs RcSeq RcRefine RcConc RcConcProofs.
+From Rc Require Import RcModel RcSpec RcProofs RcSeq RcRefine RcConc RcConcProofs RcExamples.
 Import ListNotations.
 Local Open Scope Z_scope.
 
@@ -124,8 +124,6 @@ Print Assumptions seq_other_handles_keep_their_value.
 
 (* ---- non-vacuity ---------------------------------------------------------------------------------- *)
 (* a String history with sharing, a clone on write, an in-place write and both releases *)
-Definition ex_hist : list op :=
-  [OCreate 0 3; OCopy 1 0; OCopy 2 0; OWrite 1; OWrite 1; OAssign 2 1; ODestroy 0; OReset 1; ODestroy 1; ODestroy 2].
 Example ex_hist_blocks :
   map (fun k => (rc k, freed k, dtors k)) (heap (run FStr ex_hist)) = [(0, true, 1%nat); (0, true, 1%nat)]
   /\ map (fun k => (rc k, freed k, dtors k)) (heap (run FStr (firstn 6 ex_hist))) = [(1, false, 0%nat); (2, false, 0%nat)]
@@ -205,12 +203,6 @@ Print Assumptions conc_fair_schedules_release_after_last_handle.
 
 (* ---- non-vacuity ---------------------------------------------------------------------------------- *)
 (* three threads, four handles to the common payload; writes, copies, assignment, swap, drops *)
-Definition ex_cfg : list (nat * list cop) :=
-  [(1%nat, [CWrite 0 false; CCopy 1 0; CWrite 1 false; CDrop 0; CDrop 1]);
-   (2%nat, [CAssign 0 1; CWrite 1 true; CSwap 0 1; CDrop 0; CRead 1; CDrop 1]);
-   (1%nat, [CWrite 0 false; CWrite 0 false; CDrop 0])].
-Definition ex_rr : list nat := flat_map (fun _ => [0; 1; 2]%nat) (seq 0 30).
-Definition ex_seq : list nat := repeat 2%nat 15 ++ repeat 1%nat 30 ++ repeat 0%nat 25.
 Example ex_fair_hypothesis_holds :
   forallb (fun t => Nat.leb (5 * length (snd (nth t ex_cfg (0%nat, [])))) (count_occ Nat.eq_dec ex_rr t)) (seq 0 4) = true
   /\ forallb (fun t => Nat.leb (5 * length (snd (nth t ex_cfg (0%nat, [])))) (count_occ Nat.eq_dec ex_seq t)) (seq 0 4) = true.
